@@ -1,6 +1,45 @@
 (* C10 — Inbound framing: a byte stream means the same however it is segmented.
    Pinned statements only; proofs live in Proofs/. *)
-From NW Require Import Base.Bytes Model.SchemaTypes Gen.Schema Model.Codec Model.Pool Model.Framing Conf.FramingConf.
+From NW Require Import Base.Bytes Model.SchemaTypes Gen.Schema Model.Codec Model.MsgInfo Model.Pool Model.Framing Conf.FramingConf.
+From NW Require Import Proofs.FramingSeg Proofs.FramingOpaque Proofs.PoolGeo Proofs.FramingCorollaries.
+
+(* For every way of splitting the peer's byte stream into (non-empty) network segments, the
+   buffered reader + connection read path acts on exactly the frames the one-pass parser finds
+   in the unsegmented stream — same dispatched headers and payloads, same terminal error. *)
+Theorem C10_segmentation_independent : forall sch md c segs,
+  Forall (fun s => s <> []) segs ->
+  run_reader sch md c segs = parse_stream sch md c (concat segs).
+Proof. exact run_reader_segmentation_independent_gen. Qed.
+
+Theorem C10_segmentations_agree : forall sch md c segs1 segs2,
+  (0 < max_msg c)%nat ->
+  Forall (fun s => s <> []) segs1 -> Forall (fun s => s <> []) segs2 ->
+  concat segs1 = concat segs2 ->
+  run_reader sch md c segs1 = run_reader sch md c segs2.
+Proof. exact segmentations_agree. Qed.
+
+(* Payload bytes are opaque: whatever `rest` contains (newlines, header look-alikes, any byte),
+   it is dispatched verbatim and parsing resumes right after its terminating newline. *)
+Theorem C10_payload_opaque : forall sch md c segs segs' l m id len rest,
+  Forall (fun s => s <> []) segs -> Forall (fun s => s <> []) segs' ->
+  ~ In NL l -> (length l < max_msg c)%nat ->
+  deserialize sch md l = Ok m ->
+  payload_info sch m = Some (id, len) ->
+  (len <=? max_payload c)%N = true ->
+  bucket_for (geo c) len <> None ->
+  length rest = N.to_nat len ->
+  concat segs = l ++ [NL] ++ rest ++ [NL] ++ concat segs' ->
+  run_reader sch md c segs = Dispatch m (Some rest) :: run_reader sch md c segs'.
+Proof.
+  intros sch md c segs segs' l m id len rest H1 H2 H3 H4 H5 H6 H7 H8 H9 H10.
+  eapply payload_opaque_reader; eassumption.
+Qed.
+
+(* Every legal payload length finds a pool buffer when the budget covers twice the limit. *)
+Theorem C10_all_lengths_accepted : forall max budget cap len,
+  256 <= max -> 1 <= cap -> 2 * max <= budget -> len <= max ->
+  bucket_for (geometry 256 max budget cap 2 1 2) len <> None.
+Proof. exact all_lengths_accepted_gen. Qed.
 
 (* default configuration (64 KiB payloads, 256 MiB budget, 10 000 connections): the largest legal
    payload finds a bucket — the hypotheses of C10_all_lengths_accepted are satisfiable *)
@@ -18,3 +57,7 @@ Theorem C10_small_budget_refuted :
   exists budget conns len, 1 <= len /\ len <= 1024 /\
     bucket_for (conn_geo 1024 budget (conns + conns * 128)) len = None.
 Proof. exists 1500, 2, 1024. vm_compute. repeat split; congruence. Qed.
+
+Print Assumptions C10_segmentation_independent.
+Print Assumptions C10_payload_opaque.
+Print Assumptions C10_all_lengths_accepted.
